@@ -14,6 +14,7 @@
 #include <amgcl/adapter/zero_copy.hpp>
 #include <amgcl/adapter/reorder.hpp>
 #include <amgcl/solver/skyline_lu.hpp>
+#include "c10.hpp"
 #include "harness_main.hpp"
 
 #if defined(__SANITIZE_ADDRESS__)
@@ -33,10 +34,10 @@ typedef amgcl::make_solver<
 static const char *coarsening_names[] = { "ruge_stuben", "aggregation", "smoothed_aggregation", "smoothed_aggr_emin" };
 static const char *relax_names[] = { "gauss_seidel", "ilu0", "iluk", "ilup", "ilut", "damped_jacobi", "spai0", "spai1", "chebyshev" };
 static const char *solver_names[] = { "cg", "bicgstab", "bicgstabl", "gmres", "lgmres", "fgmres", "idrs", "richardson", "preonly" };
-enum { K_AMG = 0, K_RELAX = 1, K_ZEROCOPY = 2, K_SKYLINE = 3, NKIND = 4 };
-static const char *kind_names[] = { "amg", "relax_as_precond", "zero_copy_amg", "skyline_lu" };
+enum { K_AMG = 0, K_RELAX = 1, K_ZEROCOPY = 2, K_SKYLINE = 3, K_BLOCK = 4, K_COMPLEX = 5, NKIND = 6 };
+static const char *kind_names[] = { "amg", "relax_as_precond", "zero_copy_amg", "skyline_lu", "block2x2_amg", "complex_amg" };
 
-struct Out { std::vector<double> vals; std::string text; std::string exc; uint64_t digest() const { uint64_t h = vec_digest(vals); h = sim::hash_bytes(text.data(), text.size(), h); return sim::hash_bytes(exc.data(), exc.size(), h); } };
+using c10::Out;
 
 static __attribute__((noinline)) void dirty_stack(int fill) {
     volatile unsigned char buf[192 * 1024];
@@ -53,6 +54,18 @@ static void run_one(const Plan &p, const gen::Csr &A0, const std::vector<double>
         pt::ptree prm;
         prm.put("solver.type", solver_names[p.get("solver")]);
         if (p.get("solver") != 8) prm.put("solver.maxiter", p.get("maxiter"));
+        if (kind == K_BLOCK || kind == K_COMPLEX) {
+            // block / complex valued hierarchy and solve (second translation unit); Ruge-Stuben is for scalar values only
+            long cs = 1 + p.get("coarsening") % 3;
+            prm.put("precond.coarsening.type", coarsening_names[cs]); prm.put("precond.relax.type", relax_names[p.get("relax")]);
+            prm.put("precond.coarse_enough", std::max<long>(1, p.get("coarse_enough") / (kind == K_BLOCK ? 2 : 1)));
+            prm.put("precond.max_levels", p.get("ncycle") > 1 ? std::min<long>(p.get("max_levels"), 6) : p.get("max_levels"));
+            prm.put("precond.direct_coarse", p.get("direct_coarse") != 0);
+            prm.put("precond.npre", p.get("npre")); prm.put("precond.npost", p.get("npost")); prm.put("precond.ncycle", p.get("ncycle")); prm.put("precond.pre_cycles", p.get("pre_cycles"));
+            apply_vary_params(p, prm, "precond.coarsening.", coarsening_names[cs], "precond.relax.", relax_names[p.get("relax")], "solver.", solver_names[p.get("solver")], true);
+            if (kind == K_BLOCK && n % 2 == 0 && n >= 2) c10::run_block_world(p, prm, A, rhs, o); else c10::run_complex_world(p, prm, A, rhs, o);
+            return;
+        }
         if (kind == K_AMG || kind == K_ZEROCOPY) {
             prm.put("precond.coarsening.type", coarsening_names[p.get("coarsening")]);
             prm.put("precond.relax.type", relax_names[p.get("relax")]);
